@@ -46,6 +46,12 @@ def scenarios(tier, seed=0):
             c = A._b(crop=ck, irr=irr, win="w1s", word="normal")
             c["dev"] = [[d, "Z"] for d in range(L // 3, L // 3 + 3)] + [[L // 2 + 2, "Z"], [L - 4, "L"]]
             yield {"kind": "config", "config": c}
+    # keyword overrides of the accounting parameters with FRACTIONAL values (grain at 14.5 % moisture -> YldWC 85.5): the expected
+    # identities use the value the user passed, not what the Crop object reports afterwards
+    for name in (["Maize", "Wheat", "Potato"] if tier == "quick" else ["Maize", "Wheat", "Potato", "Tomato", "Cotton", "SugarBeet"]):
+        for kw in ({"YldWC": 85.5}, {"YldWC": 12.5}, {"YldWC": 20.25, "WP": 17.5, "WPy": 82.5, "HI0": 0.475}):
+            spec = A.catalogue_spec(name, word="warm", irr="smt", iwc="FC", cropkw=kw)
+            yield {"kind": "spec", "spec": spec, "label": ["fractional-overrides", name, kw]}
     # a season cut by the end date: window ends mid-season of the last scheduled season
     for ck in scaled[:4]:
         c = A._b(crop=ck, irr="smt", win="w2", word="normal")
